@@ -24,6 +24,14 @@ Proof.
   reflexivity.
 Qed.
 
+Lemma parse_entry_computed a d : HashLen -> parse_entry_sri (sri_text (sri_of hash a d)) = Some (sri_of hash a d).
+Proof.
+  intros HL. unfold parse_entry_sri. rewrite (parse_sri_computed hash a d).
+  unfold addressable, sri_of, sri_to_hex. cbn [h_digest h_algo]. rewrite b64_decode_encode.
+  specialize (HL a d). assert (4 <=? lenN (hex_encode (hash a d)) = true) as -> by (apply N.leb_le; rewrite lenN_hex_encode; lia).
+  reflexivity.
+Qed.
+
 (* ---------- fresh temp names ---------- *)
 Lemma tmp_names_lookup f n nd : lookup f (InCache [bs "tmp"; n]) = Some nd -> In n (tmp_names f).
 Proof.
